@@ -215,3 +215,196 @@ Lemma ukeys_nil : ukeys []. Proof. constructor. Qed.
 
 Lemma m_tr_emit e m : m_tr (emit e m) = e :: m_tr m.
 Proof. reflexivity. Qed.
+
+(* ------------------------------------------------------------------ the fuel of [run] is enough *)
+
+Definition ilen (m : mstate) : nat := length (m_in m) + length (m_tlsin m).
+
+Lemma read_ilen rp m m' r :
+  read rp m = (m', r) -> match r with Some _ => S (ilen m') = ilen m | None => ilen m' = ilen m end.
+Proof.
+  unfold read. destruct (m_in m) as [|it rest] eqn:E; intro X; inversion X; subst; clear X; unfold ilen; simpl.
+  - rewrite E. reflexivity.
+  - rewrite E. reflexivity.
+Qed.
+
+Lemma expect_header_ilen m m' r :
+  expect_header m = (m', r) -> match r with Good _ => ilen m' < ilen m | _ => ilen m' <= ilen m end.
+Proof.
+  unfold expect_header. destruct (read RPHeader m) as [m1 o] eqn:E. pose proof (read_ilen _ _ _ _ E) as L.
+  intro X. inversion X; subst; clear X.
+  destruct o as [it|]; simpl in L.
+  - destruct (is_good_header (Some it)); lia.
+  - simpl. lia.
+Qed.
+
+Lemma send_header_ilen c m m' r : send_header c m = (m', r) -> ilen m' = ilen m.
+Proof.
+  unfold send_header. destruct (m_tls m && m_hs m); [destruct (c_hs_ok c)|]; intro X; inversion X; reflexivity.
+Qed.
+
+Lemma switch_ilen m : ilen (switch_layer m) <= ilen m.
+Proof. unfold ilen. simpl. lia. Qed.
+
+Lemma starttls_negotiate_ilen c m m' o : starttls_negotiate c m = (m', o) -> ilen m' <= ilen m.
+Proof.
+  unfold starttls_negotiate. destruct (server m).
+  - intro X. inversion X; subst. unfold ilen. simpl. lia.
+  - destruct (read RPReply _) as [m2 r] eqn:E. pose proof (read_ilen _ _ _ _ E) as L.
+    assert (L' : ilen m2 <= ilen m) by (destruct r; unfold ilen in *; simpl in *; lia).
+    destruct (is_proceed r); intro X; inversion X; subst; [|exact L'].
+    pose proof (switch_ilen m2). unfold ilen in *. simpl in *. lia.
+Qed.
+
+Lemma negotiate_one_ilen c m f m' o : negotiate_one c m f = (m', o) -> ilen m' <= ilen m.
+Proof.
+  unfold negotiate_one. destruct (f_kind f).
+  - intro X. inversion X; subst. unfold ilen. simpl. lia.
+  - destruct (starttls_negotiate c m) as [m1 o1] eqn:E. apply starttls_negotiate_ilen in E.
+    intro X. inversion X; subst. unfold ilen in *. simpl. lia.
+Qed.
+
+Lemma after_pick_ilen c m req f m' r : after_pick c m req f = (m', r) -> ilen m' <= ilen m.
+Proof.
+  unfold after_pick. destruct (negotiate_one c m f) as [m1 o] eqn:E. apply negotiate_one_ilen in E.
+  destruct (o_err o); [|destruct (o_restart o || req)]; intro X; inversion X; subst;
+    unfold ilen in *; simpl; lia.
+Qed.
+
+Lemma select_ilen m m' r : select m = (m', r) -> ilen m' = ilen m.
+Proof.
+  unfold select. destruct (candidates m); [intro X; inversion X; reflexivity|].
+  destruct (m_choices m); [intro X; inversion X; reflexivity|].
+  destruct (cache_get _ _) as [e|]; [destruct (_ && _)|]; intro X; inversion X; reflexivity.
+Qed.
+
+Lemma init_loop_ilen c fuel : forall m fo m' r, init_loop fuel c m fo = (m', r) -> ilen m' <= ilen m.
+Proof.
+  induction fuel as [|k IH]; intros m fo m' r E; simpl in E; [inversion E; lia|].
+  destruct fo as [f|].
+  - destruct (m_choices m) as [|ch rest]; [inversion E; lia|].
+    destruct (negb _); [inversion E; subst; unfold ilen; simpl; lia|].
+    destruct (after_pick c (set_choices rest m) true f) as [m1 r1] eqn:Ea. apply after_pick_ilen in Ea.
+    assert (ilen m1 <= ilen m) by (unfold ilen in *; simpl in *; lia).
+    destruct r1 as [[x|]|e|]; inversion E; subst; lia.
+  - destruct (select m) as [m1 rs] eqn:Es. apply select_ilen in Es.
+    destruct rs as [[[req f]|]|e|]; try (inversion E; subst; lia).
+    destruct (after_pick c m1 req f) as [m2 r2] eqn:Ea. apply after_pick_ilen in Ea.
+    destruct r2 as [[x|]|e|]; try (inversion E; subst; lia).
+    apply IH in E. lia.
+Qed.
+
+Lemma recv_loop_ilen c fuel : forall m m' r,
+  recv_loop fuel c m = (m', r) -> match r with Good _ => ilen m' < ilen m | _ => ilen m' <= ilen m end.
+Proof.
+  induction fuel as [|k IH]; intros m m' r E; simpl in E; [inversion E; lia|].
+  destruct (read RPSelect m) as [m1 o] eqn:Er. pose proof (read_ilen _ _ _ _ Er) as L.
+  destruct o as [it|]; [|inversion E; subst; lia].
+  destruct (selection_space c it); [|inversion E; subst; lia].
+  destruct (acceptable m1 b) as [[req f]|]; [|inversion E; subst; lia].
+  destruct (after_pick c m1 req f) as [m2 r2] eqn:Ea. apply after_pick_ilen in Ea.
+  destruct r2 as [[x|]|e|]; try (inversion E; subst; lia).
+  apply IH in E. destruct r; lia.
+Qed.
+
+Lemma read_children_ilen fs st : forall cs m ca tot lr m' r,
+  read_children fs st cs m ca tot lr = (m', r) -> ilen m' = ilen m.
+Proof.
+  induction cs as [|ch rest IH]; intros m ca tot lr m' r E; simpl in E; [inversion E; reflexivity|].
+  destruct ch as [sp lo req perr|]; [|inversion E; reflexivity].
+  destruct (get_feature (sp, lo) fs).
+  - destruct perr; [inversion E; reflexivity|]. apply IH in E. exact E.
+  - apply IH in E. exact E.
+Qed.
+
+Lemma list_loop_ilen st : forall l m ca lr tot names m' ca' lr' tot' names' err,
+  list_loop l st m ca lr tot names = (m', ca', lr', tot', names', err) -> ilen m' = ilen m.
+Proof.
+  induction l as [|f rest IH]; intros m ca lr tot names m' ca' lr' tot' names' err E; simpl in E; [inversion E; reflexivity|].
+  destruct (eligible f st).
+  - destruct (f_lerr f); [inversion E; reflexivity|]. apply IH in E. exact E.
+  - apply IH in E. exact E.
+Qed.
+
+Lemma write_features_ilen c m m' r : write_features c m = (m', r) -> ilen m' = ilen m.
+Proof.
+  unfold write_features. destruct (list_loop _ _ _ _ _ _ _) as [[[[[m1 ca] lr] tot] names] err] eqn:E.
+  apply list_loop_ilen in E. intro X. inversion X; subst. exact E.
+Qed.
+
+Lemma after_read_ilen c m first m' r : after_read c m first = (m', r) -> ilen m' <= ilen m.
+Proof.
+  unfold after_read.
+  assert (Tail : forall m' r,
+     match m_total m, m_cache m with
+     | O, _ => (m, Good (st_Ready, false))
+     | _, [] => (m, Bad EOther)
+     | _, _ => init_loop (S (length (m_cache m))) c m None
+     end = (m', r) -> ilen m' <= ilen m).
+  { clear m' r. intros m' r E. destruct (m_total m); [inversion E; lia|].
+    destruct (m_cache m) eqn:Ec; [inversion E; lia|]. rewrite <- Ec in E. apply init_loop_ilen in E. exact E. }
+  destruct (if _ then _ else _) as [f|]; [|apply Tail].
+  destruct (f_neg f); [|apply Tail]. apply init_loop_ilen.
+Qed.
+
+Lemma negotiate_features_ilen c m first m' r :
+  negotiate_features c m first = (m', r) ->
+  match r with Good _ => ilen m' < ilen m | _ => ilen m' <= ilen m end.
+Proof.
+  unfold negotiate_features. destruct (server m).
+  - destruct (write_features c m) as [m1 r1] eqn:Ew. apply write_features_ilen in Ew.
+    destruct r1 as [u|e|]; try (intro X; inversion X; subst; lia).
+    intro X. apply recv_loop_ilen in X. destruct r; lia.
+  - destruct (read RPFeatures m) as [m1 o] eqn:Er. pose proof (read_ilen _ _ _ _ Er) as L.
+    destruct (features_of o) as [cs|] eqn:Ef.
+    + assert (L' : S (ilen m1) = ilen m) by (destruct o; [exact L | discriminate]).
+      destruct (read_children _ _ _ _ _ _ _) as [m2 r2] eqn:Ec. apply read_children_ilen in Ec.
+      destruct r2 as [[[ca tot] lr]|e|]; try (intro X; inversion X; subst; lia).
+      intro X. apply after_read_ilen in X. unfold ilen in *. simpl in *. destruct r; lia.
+    + intro X. inversion X; subst. destruct o; lia.
+Qed.
+
+Lemma negotiator_body_ilen c m ns m' r :
+  negotiator_body c m ns = (m', r) ->
+  match r with Good _ => ilen m' < ilen m | _ => ilen m' <= ilen m end.
+Proof.
+  unfold negotiator_body.
+  destruct (if ns_restart ns then _ else _) as [m1 r1] eqn:E1.
+  assert (L1 : ilen m1 <= ilen m).
+  { destruct (ns_restart ns); [|inversion E1; lia].
+    destruct (server m).
+    - destruct (expect_header m) as [ma ra] eqn:Ee. apply expect_header_ilen in Ee.
+      destruct ra; [apply send_header_ilen in E1|inversion E1; subst|inversion E1; subst]; lia.
+    - destruct (send_header c m) as [ma ra] eqn:Es. apply send_header_ilen in Es.
+      destruct ra; [apply expect_header_ilen in E1; destruct r1|inversion E1; subst|inversion E1; subst]; lia. }
+  destruct r1 as [u|e|]; try (intro X; inversion X; subst; lia).
+  destruct (negotiate_features c m1 (ns_first ns)) as [m2 r2] eqn:En. apply negotiate_features_ilen in En.
+  destruct r2 as [[mask restart]|e|]; intro X; inversion X; subst; lia.
+Qed.
+
+Definition cost (c : config) (m : mstate) (istee : bool) : nat :=
+  2 * ilen m + (if c_tee c && negb istee then 1 else 0) + 1.
+
+Lemma session_loop_fuel c fuel : forall m ns istee,
+  cost c m istee <= fuel -> r_class (session_loop fuel c m ns istee) <> RFuel.
+Proof.
+  induction fuel as [|k IH]; intros m ns istee Hc; simpl.
+  - unfold cost in Hc. lia.
+  - destruct (has (m_bits m) st_Ready); [simpl; discriminate|].
+    destruct (c_tee c && negb istee) eqn:Et.
+    + apply IH. unfold cost in *. rewrite Et in Hc. rewrite andb_false_r. unfold ilen in *. simpl. lia.
+    + destruct (negotiator_body c m ns) as [m1 rb] eqn:Eb. apply negotiator_body_ilen in Eb.
+      destruct rb as [[[mask restart] ns1]|e|]; [|simpl; discriminate|simpl; discriminate].
+      apply IH. unfold cost in *. rewrite Et in Hc.
+      assert (X : ilen (set_bits (N.lor (m_bits (if restart then set_negd [] m1 else m1)) mask)
+                         (if restart then set_negd [] m1 else m1)) = ilen m1) by (destruct restart; reflexivity).
+      rewrite X. destruct (c_tee c && negb (if restart then false else istee)); lia.
+Qed.
+
+(* [run] never reports RFuel: its fuel covers every iteration of negotiateSession's loop *)
+Lemma run_no_fuel c bits clear tls outs choices :
+  r_class (run c bits clear tls outs choices) <> RFuel.
+Proof.
+  unfold run. apply session_loop_fuel. unfold cost, fuel_for, ilen. simpl.
+  destruct (c_tee c); simpl; lia.
+Qed.
